@@ -266,6 +266,12 @@ def weighted(rc):
         rc.fail(conv, conv.node, "convergence must use the requested tolerance", construct="em tolerance")
 
 
+
+@rule("C06.defuse", "anchored files: every parameter is read, no value is computed and dropped (generic def-use detectors, triaged hit list)", floor=2)
+def defuse(rc):
+    from . import shared as _sh
+    _sh.defuse_rule(rc, _sh.anchor_files("C06"))
+
 MUTANTS = [
     dict(kind="break", name="mle-parents-unsorted", file=MLE, expect="C06.parentorder",
          old="        parents = sorted(self.model.get_parents(node))\n        parents_cardinalities", new="        parents = list(self.model.get_parents(node))\n        parents_cardinalities"),
